@@ -241,6 +241,8 @@ type HandlerScript struct {
 	InlineError bool
 	// WithDeadline runs the attempt under a context that also carries a (far) deadline
 	WithDeadline bool
+	// DeadlineIn > 0 runs the attempt under a context whose deadline is that near
+	DeadlineIn time.Duration
 	OnCall       func(n int, tx *gobinlog.Transaction, d *Delivered) // extra monitor (C08)
 }
 
@@ -271,7 +273,11 @@ type Session struct {
 	gate         chan struct{}
 	blocked      chan struct{}
 	streamGID    int64
+	ctx          context.Context
 }
+
+// Ctx is the context of the most recent attempt.
+func (s *Session) Ctx() context.Context { s.mu.Lock(); defer s.mu.Unlock(); return s.ctx }
 
 // NewSession starts a master for the layout and creates the streamer.
 func NewSession(l *hist.Layout, tables []*hist.Table, serverID uint32, start hist.Pos, wrapped bool) (*Session, error) {
@@ -399,10 +405,17 @@ func (s *Session) Start(hs HandlerScript, xo *xport.Options) *Running {
 		oc := cancel
 		cancel = func() { dcancel(); oc() }
 	}
+	if hs.DeadlineIn > 0 {
+		dctx, dcancel := context.WithDeadline(ctx, time.Now().Add(hs.DeadlineIn))
+		ctx = dctx
+		oc := cancel
+		cancel = func() { dcancel(); oc() }
+	}
 	s.mu.Lock()
 	att := s.attempts
 	s.attempts++
 	s.cancel = cancel
+	s.ctx = ctx
 	s.gate = make(chan struct{}, 1)
 	s.blocked = make(chan struct{}, 1)
 	from := len(s.deliveries)
